@@ -226,6 +226,38 @@ def installGen (e : Endian) (start : Nat) (kp : List KEntry) (tries : List (List
     lpm := (lpmEntries start 0 tries).reverse ++ m.lpm
     domain := m.domain }
 
+/-! ### slot deletion (`InheritLpmIndices` / `ReplaceLpmIndices`) and the executable `Installed` check -/
+
+/-- `bpf.LpmArrayMap.Delete(idx)` for every listed slot -/
+def KMaps.delSlots (m : KMaps) (slots : List Nat) : KMaps :=
+  { m with lpm := m.lpm.filter fun p => !slots.contains p.1 }
+
+/-- `InheritLpmIndices(old)` on a core whose active set is `cur`: superseded slots are deleted,
+slots already reused by the current generation are skipped. -/
+def inheritSlots (m : KMaps) (old cur : List Nat) : KMaps :=
+  m.delSlots (old.filter fun s => !cur.contains s)
+
+/-- the slots one generation occupies (`usedIndices`) -/
+def genSlots (start count : Nat) : List Nat := (List.range count).map (ringSlot start)
+
+/-- What a kernel LPM trie retains of a key: the prefix length and the first `prefixLen` bits
+(two keys that agree on these are the same trie node). -/
+def canonKey (k : LpmKey) : Nat × List Bool := (k.prefixLen, (natBits 128 k.data).take k.prefixLen)
+
+/-- two key lists describe the same trie -/
+def keysEquiv (a b : List LpmKey) : Bool :=
+  (a.all fun k => (b.map canonKey).contains (canonKey k)) && (b.all fun k => (a.map canonKey).contains (canonKey k))
+
+/-- Executable form of the theorems' hypothesis `Installed` (used by the driver on the maps dumped
+from the real kernel after a real reload): active length, every rule image, every LPM slot. -/
+def installedB (m : KMaps) (start : Nat) (kp : List KEntry) (tries : List (List Prefix)) : Bool :=
+  m.activeLen == kp.length && decide (kp.length ≤ MaxMatchSetLen) &&
+  (List.range kp.length).all (fun i => m.routing[i]? == (kp[i]?).map fun k => encodeGo .little (k.rewrite start)) &&
+  (List.range tries.length).all (fun idx =>
+    match m.lpmAt (ringSlot start idx), tries[idx]? with
+    | some keys, some t => keysEquiv keys (t.map cidrToKey)
+    | _, _ => false)
+
 /-! ## The kernel program -/
 
 /-- The arguments of `route()`: `flag[0]`, `flag[1]`, the 16 bytes of `flag[2..5]`, `flag[6]`,
